@@ -14,7 +14,8 @@
 From Coq Require Import List Bool Arith.
 Import ListNotations.
 Require Import PV.Overload.Resolve.
-Require Import PV.Proofs.OverloadResolve PV.Proofs.OverloadUnion PV.Proofs.OverloadSound.
+Require Import PV.Proofs.OverloadResolve PV.Proofs.OverloadUnion PV.Proofs.OverloadSound PV.Proofs.OverloadPins.
+Require Import PV.Gen.OverloadGen.
 
 (* Union-free calls (Any allowed): the parameter-wise loop is the docstring's
    resolver: the first clean match wins, matches due to Any keep looking. *)
@@ -117,3 +118,13 @@ Theorem C08_accepted_is_sound : forall sigs args,
   forall t, Forall2 (fun m a => In m a) t args -> exists s, In s sigs /\ accepts s t <> Fail.
 Proof. exact resolve_sound. Qed.
 Print Assumptions C08_accepted_is_sound.
+
+(* Tie to the source, re-checked on every run.  [gen_unite_rets] is regenerated
+   from OverloadedSignature._unite_rets by harness/translate/overload.py and is
+   the model's unite_rets; the other regions the model mirrors are pinned in
+   Proofs/OverloadPins.v (pin_check_call_ok, pin_param_loop_ok, ...), which this
+   file depends on, so an edit of any of them breaks the build of this file. *)
+Theorem C08_unite_rets_is_translated : forall anys uanys unions clean,
+  gen_unite_rets anys uanys unions clean = unite_rets anys uanys unions clean.
+Proof. exact gen_unite_rets_is_model. Qed.
+Print Assumptions C08_unite_rets_is_translated.
